@@ -123,6 +123,21 @@ PROPS.update({
     },
 })
 
+PROPS.update({
+    "C04": {
+        "runs": [("C04", "std", "normal"), ("C04", "nostd", "normal")],
+        "rule": "two builds of the harness: default features (+serde) and --no-default-features. tag 40: every conversion impl of the regenerated table (harness dispatch generated from it) on every value of 8/16-bit and newtype sources, and on boundaries, 2^k +-1, type min/max and seeded random values of 32/64/128-bit and pointer-sized sources; only in-range/failed/panicked is observed; tag 41: T::new on every value of the representation type, in both configurations; tag 42: all strings over {0,1,2,5,9,+,-,space,a} up to length 4 (thorough 5) plus boundary and leading-zero numerals; tag 43: MIN/MAX/Default",
+        "exhaustive": {},
+        "assumptions": ["usize/isize are 64-bit"],
+    },
+    "C05": {
+        "runs": [("C05", "std", "normal")],
+        "rule": "tag 50: same conversion inputs as C04 with exact result values; tag 42: parsing alphabet as C04; tag 51: Display of every value of every type (formatted into a stack buffer) and parse-back; tag 52: equality/ordering/hash-equality for all pairs of the <=7-bit types and boundaries+neighbours+seeded pairs for U14; tag 43: MIN/MAX/Default",
+        "exhaustive": {},
+        "assumptions": ["usize/isize are 64-bit"],
+    },
+})
+
 HOOK_COMMITS = ["8ffd056"]
-FIX_COMMITS = ["f23ae2b"]
+FIX_COMMITS = ["f23ae2b", "0a7a8ec", "6f3a6a3"]
 NOT_YET = {}
